@@ -212,9 +212,25 @@ class Path:
         self.labels.append(f"{label}={c}")
         return c
 
+    def cached(self, compute):
+        """A solver-derived fact about the path so far (feasibility of a branch, validity of an
+        alignment): computed once, replayed when the path prefix is re-executed."""
+        i = len(self.taken)
+        if i < len(self.prefix):
+            v = self.prefix[i]
+            if not (isinstance(v, tuple) and v and v[0] == "cached"):
+                raise RuntimeError("path replay out of step")
+        else:
+            v = ("cached", compute())
+        self.taken.append(v)
+        return v[1]
+
 
 # ---------------------------------------------------------------------------------
 # solver
+
+RLIMIT_PER_MS = 10000      # z3 resource units per "millisecond" of nominal budget (largest discharged obligation on the unchanged tree uses ~3e7)
+
 
 class Prover:
     """Validity checks `axioms and pc => goal`, one query per obligation, fixed budget."""
@@ -223,6 +239,8 @@ class Prover:
         self.axioms = list(axioms)
         self.timeout_ms = timeout_ms
         self.expander = expander      # expands lazy fact schemas at query time
+        self.max_rlimit = 0
+        self.feasible_axioms = True   # confirm infeasibility with the quantified axioms (slower, fewer paths)
         self.time = 0.0
         self.queries = 0
 
@@ -237,7 +255,7 @@ class Prover:
             s.add(f)
         for f in extra:
             s.add(f)
-        if lazy and self.expander is not None:
+        if self.expander is not None:
             for f in self.expander(plain + list(extra), lazy):
                 s.add(f)
         return s
@@ -248,7 +266,7 @@ class Prover:
                          [extra] if extra is not None else [], axioms=False)
         t = time.time()
         r = s.check()
-        if r == z3.sat and self.axioms:
+        if r == z3.sat and self.axioms and self.feasible_axioms:
             s2 = self._solver(300, pc, [extra] if extra is not None else [])
             if s2.check() == z3.unsat:
                 r = z3.unsat
@@ -259,19 +277,29 @@ class Prover:
     def prove(self, pc, goal, timeout_ms=None):
         """-> (status, detail, seconds).  The sequence solver is unstable on identical input, so the
         budget is split over several random seeds; `unsat` from any attempt is a proof, `sat`
-        from any attempt is a counter-model, otherwise undecided."""
+        from any attempt is a counter-model, otherwise undecided.  Budgets are z3 resource units
+        (rlimit), not wall-clock, so that verdicts do not depend on machine load; the wall-clock
+        timeout is only a generous safety net."""
         total = timeout_ms or self.timeout_ms
-        plan = [(0, total // 5), (7, total // 5), (23, total // 5), (101, total - 3 * (total // 5))]
+        unit = total * RLIMIT_PER_MS
+        # geometric schedule: cheap attempts under several seeds first, the big budgets last
+        plan = [(0, unit // 100), (7, unit // 100), (23, unit // 40), (41, unit // 40), (0, unit // 8),
+                (101, unit // 4), (7, unit // 2)]
         t = time.time()
         r = None
         s = None
         for seed, budget in plan:
-            s = self._solver(max(budget, 500), pc, [z3.Not(goal)])
+            s = self._solver(total * 6, pc, [z3.Not(goal)])
+            s.set("rlimit", int(max(budget, 200000)))
             s.set("random_seed", seed)
             if seed:
                 s.set("smt.random_seed", seed)
                 s.set("smt.phase_selection", seed % 6)
             r = s.check()
+            try:
+                self.max_rlimit = max(self.max_rlimit, int(s.statistics().get_key_value("rlimit count"))) if r == z3.unsat else self.max_rlimit
+            except Exception:
+                pass
             if r != z3.unknown:
                 break
         dt = time.time() - t
@@ -282,7 +310,7 @@ class Prover:
         if r == z3.sat:
             try:
                 m = s.model()
-                detail = "counter-model: " + ", ".join(f"{d.name()}={m[d]}" for d in list(m.decls())[:40])
+                detail = "counter-model: " + ", ".join(f"{d.name()}={m[d]}" for d in list(m.decls())[:40] if d.arity() == 0)
             except Exception:
                 m = None
                 detail = "sat"
@@ -307,12 +335,14 @@ class Exit:
     res_kind: kind of the returned value ('none', 'bool', 'int', 'K', ... or a callable
     making a fresh value)."""
 
-    def __init__(self, kind, when=None, post=None, res=None, name=None):
+    def __init__(self, kind, when=None, post=None, res=None, name=None, value=None, effect=None):
         self.kind = kind
         self.when = when
         self.post = post
         self.res = res
         self.name = name or kind
+        self.value = value          # a concrete result (Conc) this exit stands for: True / False / None
+        self.effect = effect        # effect(ex): ghost update performed when the exit is taken at a call site
 
 
 class LoopSpec:
@@ -467,8 +497,7 @@ class Exec:
             return True
         if z3.is_false(cond):
             return False
-        ft = self.feasible(cond)
-        ff = self.feasible(z3.Not(cond))
+        ft, ff = self.path.cached(lambda: (self.feasible(cond), self.feasible(z3.Not(cond))))
         if ft and ff:
             c = self.path.choose(2, label)
             if c == 0:
@@ -599,7 +628,7 @@ class Exec:
             raise Untranslatable(f"while loop #{self.loop_ord[id(n)]} has no invariant")
         lname = f"loop#{self.loop_ord[id(n)]}"
         for nm, f in spec.inv(self.env, self.st, None):
-            self.oblige(f"{lname}:inv-established:{nm}", f)
+            self.oblige(f"{self.fv.qual}:{lname}:inv-established:{nm}", f)
         self.havoc_loop(n, spec)
         for nm, f in spec.inv(self.env, self.st, None):
             self.st.assume(f)
@@ -612,10 +641,15 @@ class Exec:
             except _Continue:
                 pass
             for nm, f in spec.inv(self.env, self.st, None):
-                self.oblige(f"{lname}:inv-preserved:{nm}", f)
+                self.oblige(f"{self.fv.qual}:{lname}:inv-preserved:{nm}", f)
             if v0 is not None:
                 v1 = spec.variant(self.env, self.st, None)
-                self.oblige(f"{lname}:variant-decreases", z3.And(v1 < v0, v0 >= 0))
+                again = self.truth(self.expr(n.test))
+                goal = z3.And(v1 < v0, v0 >= 0)
+                if not isinstance(again, bool):
+                    goal = z3.Implies(again, goal)
+                if again is not False:
+                    self.oblige(f"{self.fv.qual}:{lname}:variant-decreases-when-continuing", goal)
             raise PathEnd()
         else:
             self.stmts(n.orelse)
@@ -991,14 +1025,18 @@ class Exec:
                 if not w:
                     raise PathEnd()
             else:
-                if not self.feasible(w):
+                if not self.path.cached(lambda: self.feasible(w)):
                     raise PathEnd()
                 self.st.assume(w)
         th.havoc_for_call(self, c, recv)
+        self.st.ghost["call_args"] = args
         post = th.view(self.st.snapshot(), recv)
         res = None
         if ex.kind == "return":
-            res = th.fresh_result(self, ex.res, label)
+            res = ex.value if ex.value is not None else th.fresh_result(self, ex.res, label)
+        if ex.effect is not None:
+            ex.effect(self)
+            post = th.view(self.st.snapshot(), recv)
         if ex.post is not None:
             for nm, f in ex.post(pre, post, args, res):
                 self.st.assume(f)
@@ -1167,6 +1205,8 @@ class FuncVC:
                 ex.st.assume(h)
         live = []
         for e in cands:
+            if e.value is not None and not (isinstance(res, Conc) and res.v is e.value.v):
+                continue
             w = e.when(pre, ex.args) if e.when is not None else True
             if isinstance(w, bool) and not w:
                 continue
@@ -1182,7 +1222,7 @@ class FuncVC:
         for e, w in live:
             guard = (lambda f: f) if isinstance(w, bool) else (lambda f, w=w: z3.Implies(w, f))
             r = res
-            if kind == "return":
+            if kind == "return" and e.value is None:
                 ok = self.theory.result_conforms(ex, e.res, res)
                 if not ok:
                     if isinstance(w, bool):
